@@ -19,6 +19,48 @@ Theorem C04_frozen_immutable_guard_first : forall op w r c,
   mutate op w r = (MErr Frozen, w).
 Proof. intros op w r c H1 H2 H3. rewrite (frozen_immutable_any op w r c H1 H2), H3. reflexivity. Qed.
 
+(** ** 1b. Attempts that would change nothing are attempts all the same.  The effect [apply] of an operation is not even
+       computed for a receiver in a frozen layout, so the operations which leave a MUTABLE receiver exactly as it is
+       ([snd (apply op w c) = cfields c]: `x[i] = x[i]`, `x[i] += 0`, `x.extend([])`, `x += []`, `d[k] = d[k]`,
+       `d.update({})`, `d |= {}`, `d.setdefault(k)` for a present key, `s.add(present)`, `s.update([])`,
+       `s.discard(absent)` ...) fail on the frozen image like every other one: whether the stored value is the one that is
+       already there plays no role. *)
+Theorem C04_noop_attempts_fail : forall op w r c,
+  cell_of w r = Some c -> is_frozen_tag (ctag c) = true -> pre_check op w c = None ->
+  snd (apply op w c) = cfields c ->
+  mutate op w r = (MErr Frozen, w).
+Proof. intros op w r c H1 H2 H3 _. apply (C04_frozen_immutable_guard_first op w r c H1 H2 H3). Qed.
+
+(** `x[i] = x[i]` on a frozen list, for every valid index (negative ones included) and whatever the element is. *)
+Theorem C04_identity_item_write_fails : forall w r c i j v,
+  cell_of w r = Some c -> ctag c = TFrozenList ->
+  conv_index (Z.of_nat (length (cfields c))) i = Some j -> nth_error (cfields c) (Z.to_nat j) = Some v ->
+  mutate (LSetAt i v) w r = (MErr Frozen, w).
+Proof.
+  intros w r c i j v H1 H2 H3 _.
+  apply (C04_frozen_immutable_guard_first (LSetAt i v) w r c H1).
+  - rewrite H2. reflexivity.
+  - unfold pre_check. rewrite H2. simpl. rewrite H3. reflexivity.
+Qed.
+
+(** ... while on the mutable original the same write succeeds and leaves the fields as they are (so the statement above is
+    about operations that do succeed before the freeze). *)
+Theorem C04_identity_item_write_unfrozen_noop : forall w a c i j v,
+  nth_error (wm w) a = Some (Live c) -> ctag c = TList -> clock c = 0%N ->
+  conv_index (Z.of_nat (length (cfields c))) i = Some j -> nth_error (cfields c) (Z.to_nat j) = Some v ->
+  fst (mutate (LSetAt i v) w (Ptr a)) = MOk RNone /\ snd (apply (LSetAt i v) w c) = cfields c.
+Proof.
+  intros w a c i j v H1 H2 H3 H4 H5.
+  assert (U : upd (cfields c) (Z.to_nat j) v = cfields c).
+  { revert H5. generalize (Z.to_nat j) as n. generalize (cfields c) as l.
+    induction l as [|x l IH]; intros [|n] E; simpl in *; try discriminate; auto.
+    - inversion E; reflexivity.
+    - f_equal. apply IH; assumption. }
+  split.
+  - unfold mutate. simpl. rewrite H1. unfold pre_check. rewrite H2, H3, H4. simpl. reflexivity.
+  - simpl. rewrite H4. exact U.
+Qed.
+
 (** ** 2. Closure: after `Module::freeze_impl`, the exported slots and every cell of the frozen heap point only to
        immediate values, the static empty list, or filled frozen cells, and every frozen cell has a frozen layout. *)
 Theorem C04_freeze_closed : forall w0 slots slots' w',
@@ -222,3 +264,23 @@ Example C04_ex_mutations_unfrozen :
   obs 2 w2 (Ptr 0) = ONode TFrozenList 0 [OImm 1; OImm 2; OImm 9] /\
   read (RDictGet (Ptr 1)) w2 (Ptr 3) = RRef (Imm 1).
 Proof. vm_compute. split; reflexivity. Qed.
+
+(** Attempts that change nothing: `a[0] = 1` (already 1), `a[-1] = 2`, `a.extend([])`, `a += []`, `d["k"] = d["k"]`, `d.update({})`,
+    `d |= {}`, `d.setdefault("k", 5)`, `s.add(3)`, `s.update([])`, `s.discard(99)`: each succeeds on the original and leaves its
+    observation as it is; each fails with `CannotMutateImmutableValue` on the frozen image. *)
+Example C04_ex_identity_writes :
+  let ops_u := [(LSetAt 0 (Imm 1), Ptr 0); (LSetAt (-1) (Imm 2), Ptr 0); (LExtend [], Ptr 0); (LAddAssign [], Ptr 0);
+                (DSetAt (Ptr 1) (Ptr 0), Ptr 3); (DUpdate [], Ptr 3); (DOrAssign [], Ptr 3); (DSetdefault (Ptr 1) (Imm 5), Ptr 3);
+                (SAdd (Imm 3), Ptr 9); (SUpdate [], Ptr 9); (SDiscard (Imm 99), Ptr 9)] in
+  forallb (fun p => match fst (mutate (fst p) ex_w0 (snd p)) with MOk _ => true | MErr _ => false end) ops_u = true /\
+  map (fun p => obs 6 (snd (mutate (fst p) ex_w0 (snd p))) (snd p)) ops_u = map (fun p => obs 6 ex_w0 (snd p)) ops_u /\
+  match freeze_module ex_w0 ex_slots with
+  | FOk (_, w') =>
+      map (fun p => fst (mutate (fst p) w' (snd p)))
+          [(LSetAt 0 (Imm 1), FPtr 1); (LSetAt (-1) (Imm 2), FPtr 1); (LExtend [], FPtr 1); (LAddAssign [], FPtr 1);
+           (DSetAt (FPtr 3) (FPtr 1), FPtr 2); (DUpdate [], FPtr 2); (DOrAssign [], FPtr 2); (DSetdefault (FPtr 3) (Imm 5), FPtr 2);
+           (SAdd (Imm 3), FPtr 9); (SUpdate [], FPtr 9); (SDiscard (Imm 99), FPtr 9)]
+      = repeat (MErr Frozen) 11
+  | _ => False
+  end.
+Proof. vm_compute. repeat split; reflexivity. Qed.
